@@ -18,6 +18,15 @@ unsafe impl parking_lot::lock_api::RawMutex for RawMutex {
 
     #[inline]
     fn lock(&self) {
+        #[cfg(oxidd_verif)]
+        {
+            let flag = &self.0;
+            oxidd_core::verif::acquire(
+                oxidd_core::verif::class::CACHE_LOCK,
+                self as *const Self as usize,
+                &|| !flag.load(Ordering::Relaxed),
+            );
+        }
         loop {
             if self.0.swap(true, Ordering::Acquire) {
                 // was true -> is locked
@@ -31,6 +40,11 @@ unsafe impl parking_lot::lock_api::RawMutex for RawMutex {
 
     #[inline(always)]
     fn try_lock(&self) -> bool {
+        #[cfg(oxidd_verif)]
+        oxidd_core::verif::point(
+            oxidd_core::verif::class::CACHE_TRY_LOCK,
+            self as *const Self as usize,
+        );
         // If we read false, we acquired the lock, if we read true, we did not.
         !self.0.swap(true, Ordering::Acquire)
     }
